@@ -155,7 +155,12 @@ struct Monitors {
     }
 };
 
-void render_everything(CDNS::CdnsBlockRead& b) {
+__attribute__((noinline)) void dirty_stack(unsigned char b) {
+    volatile unsigned char buf[192 * 1024];
+    memset((void*)buf, b, sizeof buf);
+}
+
+uint64_t render_everything(CDNS::CdnsBlockRead& b) {
     std::string sink;
     sink += b.string();
     sink += b.m_block_preamble.string();
@@ -172,7 +177,7 @@ void render_everything(CDNS::CdnsBlockRead& b) {
     for (int guard = 0; guard < 1000000; guard++) { CDNS::GenericQueryResponse g = b.read_generic_qr(end); if (end) break; sink += g.string(); }
     for (int guard = 0; guard < 1000000; guard++) { CDNS::GenericAddressEventCount g = b.read_generic_aec(end); if (end) break; sink += g.string(); }
     for (int guard = 0; guard < 1000000; guard++) { CDNS::GenericMalformedMessage g = b.read_generic_mm(end); if (end) break; sink += g.string(); }
-    (void)sink;
+    return fnv1a(sink);
 }
 
 }  // namespace
@@ -208,20 +213,31 @@ void sim::engine_damage(RunCtx& cx) {
     std::set<std::string> outcomes;
 
     // ---- consumer A: CdnsReader + accessors + renderers over a SimStream ----------------------------------------------
-    {
+    // Executed twice with different garbage in fresh heap memory and on the stack: the rendered text and the outcome must not
+    // depend on it (stand-in for MemorySanitizer, which cannot be used with the uninstrumented libstdc++ of this sandbox).
+    uint64_t text_hash[2] = {0, 0};
+    const char* pass_outcome[2] = {"", ""};
+    long stream_fail = r.chance(1, 10) ? (long)r.below(f.size() + 1) : -1;
+    for (int pass = 0; pass < 2; pass++) {
         mon.begin("reader");
+        simalloc::state().fill = true;
+        simalloc::state().fill_byte = pass ? 0xA5 : 0x00;
+        dirty_stack(pass ? 0xFF : 0x00);
         simalloc::state().fail_at = fail_at;
         const char* outcome = "clean";   // (no allocation in the handlers: the allocation fault may still be armed)
+        uint64_t h = 1469598103934665603ULL;
         try {
-            SimStreamBuf sb(f, f.size(), delivery == 0 ? 0 : delivery == 1 ? 7 : 4096, mix64(cx.seed, 1), r.chance(1, 10) ? (long)r.below(f.size() + 1) : -1);
+            SimStreamBuf sb(f, f.size(), delivery == 0 ? 0 : delivery == 1 ? 7 : 4096, mix64(cx.seed, 1), stream_fail);
             std::istream is(&sb);
             CDNS::CdnsReader rd(is);
             std::string s = rd.m_file_preamble.string();
+            h = fnv1a(s, h);
             for (size_t nb = 0; nb < 200000; nb++) {
                 bool eof = false;
                 CDNS::CdnsBlockRead b = rd.read_block(eof);
                 if (eof) break;
-                render_everything(b);
+                uint64_t bh = render_everything(b);
+                h = fnv1a(&bh, sizeof bh, h);
             }
         } catch (CDNS::CdnsDecoderEnd&) { simalloc::state().fail_at = 0; outcome = "CdnsDecoderEnd"; }
         catch (CDNS::CdnsDecoderException&) { simalloc::state().fail_at = 0; outcome = "CdnsDecoderException"; }
@@ -229,10 +245,19 @@ void sim::engine_damage(RunCtx& cx) {
         catch (std::exception&) { simalloc::state().fail_at = 0; outcome = "std::exception"; }
         catch (...) { simalloc::state().fail_at = 0; outcome = "non-std"; cx.violation("C03", "C03/I26/non-std-exception/reader", "something not derived from std::exception was thrown"); }
         simalloc::state().fail_at = 0;
+        simalloc::state().fill = false;
         mon.end(fail_at);
-        outcomes.insert(std::string("A:") + outcome);
-        cx.ctr->add(std::string("outcome.reader.") + outcome);
+        text_hash[pass] = h;
+        pass_outcome[pass] = outcome;
+        if (pass == 0) {
+            outcomes.insert(std::string("A:") + outcome);
+            cx.ctr->add(std::string("outcome.reader.") + outcome);
+        }
     }
+    if (text_hash[0] != text_hash[1] || std::string(pass_outcome[0]) != pass_outcome[1])
+        cx.violation("C03", "C03/I26/result-depends-on-uninitialised-memory", std::string("reading + rendering the same image twice, with fresh heap memory and the stack pre-filled with different bytes, gave different ") +
+                                                                                 (std::string(pass_outcome[0]) != pass_outcome[1] ? "outcomes (" + std::string(pass_outcome[0]) + " vs " + pass_outcome[1] + ")" : std::string("rendered text")));
+    else cx.ctr->add("probe.uninitialised_memory_insensitive");
     // ---- consumer B: raw decoder calls in seeded order ---------------------------------------------------------------------
     {
         mon.begin("decoder");
